@@ -367,7 +367,7 @@ Qed.
 Lemma cover_tuple : forall elems ids n ts,
   (forall x, In x elems -> fsuff dec x = true /\ E0 x) ->
   ids <> [] -> elems <> [] -> length elems < n -> ffollow_ok 9 ts ->
-  (length ids + length elems <= MAX_STRUCT_SIZE \/ forallb is_xid elems = true) ->
+  length ids + length elems <= MAX_STRUCT_SIZE ->
   cover tps P n ids (tails (fpr dec) elems ++ TP RParen :: ts) = Some (XTuple (map XId ids ++ elems), ts).
 Proof.
   induction elems as [|e more IH]; intros ids n ts Hall Hids Hne Hn Hf Hsz; [congruence|].
@@ -381,8 +381,7 @@ Proof.
             collect (P (MLevel 0)) (map XId ids ++ [e]) (tails (fpr dec) more ++ TP RParen :: ts)
             = Some (XTuple (map XId ids ++ e :: more), ts)).
   { intros Hx. rewrite collect_rt; [rewrite <- app_assoc; reflexivity|exact Hmore| |].
-    - destruct Hsz as [Hsz|Hsz]; [|rewrite (forallb_false_in is_xid (e :: more) e (or_introl eq_refl) Hx) in Hsz; discriminate].
-      rewrite <- app_assoc. cbn [app]. rewrite app_length, map_length. exact Hsz.
+    - rewrite <- app_assoc. cbn [app]. rewrite app_length, map_length. exact Hsz.
     - rewrite <- app_assoc. exact Hlen2. }
   cbn [tails flat_map app cover]. fold (tails (fpr dec) more). rewrite <- app_assoc.
   assert (Hdefault : (forall x, t <> TLow x) ->
@@ -400,6 +399,9 @@ Proof.
   destruct (fpr_head_id dec e x rest E) as [[-> ->]|(t' & rest' & -> & Hn1 & Hn2 & Hn3)].
   - cbn [fpr app]. destruct more as [|e2 more'].
     + cbn [tails flat_map app hd_is is_p punct_eqb]. unfold cover_end. rewrite expect_same, (ffollow9_not_arrow _ Hf).
+      assert (Hlim : (MAX_STRUCT_SIZE <? length (ids ++ [x])) = false).
+      { apply Nat.ltb_ge. rewrite app_length. cbn [length] in *. lia. }
+      rewrite Hlim.
       rewrite map_app. cbn [map]. destruct ids as [|i [|i2 ids']]; [congruence|reflexivity|reflexivity].
     + assert (Hc : hd_is (is_p Comma) (tails (fpr dec) (e2 :: more') ++ TP RParen :: ts) = true) by reflexivity.
       rewrite Hc. rewrite (IH (ids ++ [x]) n ts).
@@ -409,9 +411,7 @@ Proof.
       * discriminate.
       * cbn [length] in *. lia.
       * exact Hf.
-      * destruct Hsz as [Hsz|Hsz]; [left|right].
-        -- rewrite app_length. cbn [length] in *. lia.
-        -- cbn [forallb is_xid andb] in Hsz. exact Hsz.
+      * rewrite app_length. cbn [length] in *. lia.
   - rewrite E. cbn [app hd_is]. rewrite (is_p_false Colon t' Hn3), (is_p_false Comma t' Hn2), (is_p_false RParen t' Hn1).
     rewrite frombase_of_level0.
     change (TLow x :: t' :: rest' ++ tails (fpr dec) more ++ TP RParen :: ts)
@@ -420,7 +420,7 @@ Proof.
 Qed.
 
 Lemma tuple_rt e1 e2 es ts : (forall x, In x (e1 :: e2 :: es) -> fsuff dec x = true /\ E0 x) ->
-  (length (e1 :: e2 :: es) <= MAX_STRUCT_SIZE \/ forallb is_xid (e1 :: e2 :: es) = true) -> ffollow_ok 9 ts ->
+  length (e1 :: e2 :: es) <= MAX_STRUCT_SIZE -> ffollow_ok 9 ts ->
   P (MLevel 9) (TP LParen :: commas (map (fpr dec) (e1 :: e2 :: es)) ++ TP RParen :: ts) = Some (XTuple (e1 :: e2 :: es), ts).
 Proof.
   intros Hall Hsz Hf. rewrite P_level9. cbn [base_expr]. unfold paren_expr. rewrite commas_cons, <- app_assoc.
@@ -431,7 +431,7 @@ Proof.
   { rewrite E. cbn [app hd_is]. apply estart_not_p; [exact Het|discriminate..]. }
   rewrite Hrp.
   assert (Hle : is_xid e1 = false -> length (e1 :: e2 :: es) <= MAX_STRUCT_SIZE).
-  { intros Hx. destruct Hsz as [Hsz|Hsz]; [exact Hsz|]. cbn [forallb] in Hsz. rewrite Hx in Hsz. discriminate. }
+  { intros _. exact Hsz. }
   assert (Hdefault : (forall x, t <> TLow x) ->
      match paren_list (P (MLevel 0)) (Some MAX_STRUCT_SIZE) (fpr dec e1 ++ tails (fpr dec) (e2 :: es) ++ TP RParen :: ts) with
      | Some (es0, r1) => match es0 with [e] => Some (e, r1) | _ => Some (XTuple es0, r1) end
@@ -457,7 +457,7 @@ Proof.
     assert (Hc2 : hd_is (is_p Colon) (tails (fpr dec) (e2 :: es) ++ TP RParen :: ts) = false) by reflexivity.
     rewrite Hc, Hc2. rewrite (cover_tuple (e2 :: es) [x]); [reflexivity|exact Hmore|discriminate|discriminate| |exact Hf|].
     + rewrite app_length. pose proof (tails_length (fpr dec) (e2 :: es)). lia.
-    + destruct Hsz as [Hsz|Hsz]; [left; cbn [length] in *; lia|right]. cbn [forallb is_xid andb] in Hsz. exact Hsz.
+    + cbn [length] in *. lia.
   - rewrite E. cbn [app hd_is]. rewrite (is_p_false Colon t' Hn3), (is_p_false Comma t' Hn2), (is_p_false RParen t' Hn1).
     rewrite frombase_of_level0.
     change (TLow x :: t' :: rest' ++ tails (fpr dec) (e2 :: es) ++ TP RParen :: ts)
@@ -877,7 +877,9 @@ Proof.
   - (* literal *)
     apply ALP_of_A0; [exact (proj2 (andb_true_iff _ _) (conj (proj1 Hs) eq_refl))| |cbn; tauto].
     intros ts _ _. cbn [flevel fpr app]. rewrite P_level9. destruct Hw as [Hw _]. cbn [fwf_node] in Hw.
-    destruct l as [z|str|[]]; cbn [pr_lit base_expr]; try reflexivity. rewrite (str_ok_roundtrip str Hw). reflexivity.
+    destruct l as [z|str|[]]; cbn [pr_lit base_expr lit_ok] in *; try reflexivity.
+    + rewrite Hw. reflexivity.
+    + rewrite (str_ok_roundtrip str Hw), Hw. reflexivity.
   - apply ALP_of_A0; [exact (proj2 (andb_true_iff _ _) (conj (proj1 Hs) eq_refl))| |cbn; tauto].
     intros ts _ _. cbn [flevel fpr app]. rewrite P_level9. reflexivity.
   - apply ALP_of_A0; [exact (proj2 (andb_true_iff _ _) (conj (proj1 Hs) eq_refl))| |cbn; tauto].
@@ -892,7 +894,7 @@ Proof.
     apply ALP_of_A0; [unfold fsuff; cbn [fall]; rewrite Hsn, Hsc; reflexivity| |cbn; tauto].
     intros ts Hf _. cbn [flevel] in *. destruct es as [|e1 [|e2 es']]; try (cbn in Hlen; discriminate).
     cbn [fpr app]. rewrite <- app_assoc. cbn [app]. apply tuple_rt; [exact Hall| |exact Hf].
-    apply orb_prop in Hmax. destruct Hmax as [H|H]; [left; apply Nat.leb_le; exact H|right; exact H].
+    apply Nat.leb_le. exact Hmax.
   - (* field access *)
     destruct Hs as [Hsn Hsa], Hw as [Hwn Hwa]. cbn [fwf_node] in Hwn.
     destruct (IH a ltac:(lia) Hsa Hwa) as (Aa & La & Pa).
